@@ -4,7 +4,10 @@ CONSTANTS
   MaxD = 3
   MaxT = 2
   Variant = "ok"
+  Volumes <- VolumesQ
 INVARIANT TypeOK
 INVARIANT AllEqual
 INVARIANT ScaleIsOne
+INVARIANT EdgesAgree
+INVARIANT PlacementAgrees
 CHECK_DEADLOCK FALSE
